@@ -1005,8 +1005,8 @@ def check_property(prop, tier="quick", seed=0):
                                   "success": bool(h["ok"]), "backend": "kani 0.68 / cbmc 6.11", "cbmc_checks": h["checks"]})
             kani_ev = {"cmd": kani["cmd"], "harnesses": len(kani["harnesses"]), "cbmc_checks_total": sum(h["checks"] for h in kani["harnesses"]),
                        "wall_s": kani.get("wall"), "domain": "all i64, all f64 (NaN, +-0, +-inf), bool; loop-free harnesses, unwind(2) only bounds the unreachable Str memcmp (unwinding assertions on)"}
-            samples += [{"item": "liquid_core::model::ScalarCow (PartialEq/PartialOrd) via kani/src/lib.rs", "clause": h["name"], "names": []} for h in kani["harnesses"][:4]]
-            fuc.append({"unit": "kani", "file": "crates/core/src/model/scalar/mod.rs", "item": "impl PartialEq/PartialOrd for ScalarCow (scalar_eq, scalar_cmp), From<i64/f64/bool>, to_integer/to_float/to_bool; scalar/ser.rs serialize_as_i64 via to_scalar",
+            samples += [{"item": KANI_SUBJECT[prop][1] + " via kani/src/lib.rs", "clause": h["name"], "names": []} for h in kani["harnesses"][:4]]
+            fuc.append({"unit": "kani", "file": KANI_SUBJECT[prop][0], "item": KANI_SUBJECT[prop][1],
                         "lines": None, "sha256_body": None, "serves": [prop], "closures_annotated": 0, "loops_annotated": 0})
             trusted.append("[kani] kani 0.68 / CBMC 6.11 / CaDiCaL; harnesses reach the real code through the public API of liquid-core (path dependency on /repo/crates/core)")
     # ---- bounded stand-in / witness search: the boundary battery on the real code
@@ -1279,7 +1279,12 @@ def build_replay():
     return os.path.join(WORK, "replay-target", "debug", "replay"), ""
 
 
-KANI_HARNESSES = {"C11": "c11_", "C12": "c12_"}
+KANI_HARNESSES = {"C11": "c11_", "C12": "c12_", "C06": "c06_"}
+KANI_SUBJECT = {
+    "C11": ("crates/core/src/model/scalar/mod.rs", "impl PartialEq/PartialOrd for ScalarCow (scalar_eq, scalar_cmp), From<i64/f64/bool>"),
+    "C12": ("crates/core/src/model/scalar/ser.rs", "to_scalar / ScalarSerializer / serialize_as_i64; ScalarCow::{to_integer,to_float,to_bool}"),
+    "C06": ("crates/core/src/model/scalar/mod.rs", "impl ValueView for ScalarCow / i64 / f64 / bool :: query_state (truthiness tables)"),
+}
 
 
 def run_kani(prop):
